@@ -222,6 +222,44 @@ def run_impl(cfg, counter, ops, responder=None, resolved=None):
     return status, failed, canon_dev(dev), sent, dev
 
 
+def run_twins(rng, runs):
+    """runs: list of (cfg, ops, responder): one REAL device object per entry, the operations of all of them executed in
+    ONE process in a random interleaving (each object's own order kept).  Returns [(status, state)] per object.
+    What one object does or learns must not show in another (class-level state, shared mutable defaults, caches)."""
+    devs, queues = [], []
+    by_obj = {}
+
+    async def fake_send(self, command):
+        data = command.tobytes()
+        return list(by_obj[id(self)](data))
+    orig = Device._send_command
+    Device._send_command = fake_send
+    try:
+        for cfg, ops, responder in runs:
+            dev = AC(ip="1.2.3.4", port=6444, device_id=len(devs) + 1)
+            for name, tok in cfg:
+                _pyset(dev, name, tok, False)
+            by_obj[id(dev)] = responder          # (no private attribute is reset here: objects as the constructor leaves them)
+            devs.append(dev)
+            queues.append(list(ops))
+        status = ["ok"] * len(devs)
+        while any(queues):
+            j = rng.choice([j for j, q in enumerate(queues) if q])
+            op = queues[j].pop(0)
+            if status[j] != "ok":
+                continue
+            try:
+                if op[0] == "set":
+                    _pyset(devs[j], op[1], op[2], True)
+                else:
+                    asyncio.run(getattr(devs[j], OPS[op[1]])())
+            except Exception as e:  # noqa
+                status[j] = "err:py:" + type(e).__name__
+    finally:
+        Device._send_command = orig
+    return [(status[j], canon_dev(devs[j])) for j in range(len(devs))]
+
+
 def line_for(cfg, counter, ops):
     cfgs = ",".join(f"{k}:{v}" for k, v in cfg)
     parts = []
